@@ -250,7 +250,8 @@ Proof.
     assert (DD : map snd (filter is_discard (E ++ map (fun r : N => (KDiscard, r)) (firstn m gc)
                    ++ (if (length gc <? m)%nat then [(KConfigure, orev o)] else []))) = firstn m gc).
     { rewrite !filter_app, !map_app. unfold E at 1. cbn [filter is_discard fst kind_eqb map app].
-      rewrite (discards_of_map (firstn m gc)). destruct (length gc <? m)%nat; cbn; rewrite app_nil_r; reflexivity. }
+      pose proof (discards_of_map (firstn m gc)) as DM. unfold task in *. rewrite DM.
+      destruct (length gc <? m)%nat; cbn; rewrite app_nil_r; reflexivity. }
     unfold task in *. rewrite DD.
     destruct W as [W1 W2 W3 W4 W5 W6 W7 W8].
     assert (LI : exists ci, last_index (cur s) (seq s) = Some ci).
